@@ -279,6 +279,8 @@ def make_text_chunked(nch, width, dmax, trips):
 # ---------------------------------------------------------------- multipart field budget, integers
 TEXT_HDR = b'Content-Disposition: form-data; name="%s"'
 FILE_HDR = b'Content-Disposition: form-data; name="%s"; filename="x.bin"\r\nContent-Type: application/octet-stream'
+EMPTY_NAME_HDR = b'Content-Disposition: form-data; name="%s"; filename=""\r\nContent-Type: application/octet-stream'
+HDR_OF = {"T": TEXT_HDR, "F": FILE_HDR, "E": EMPTY_NAME_HDR}    # E: a file input whose filename is empty, with content
 
 
 def multipart_layout(kinds, sizes):
@@ -288,7 +290,7 @@ def multipart_layout(kinds, sizes):
     pos = 0
     lead = b"--B\r\n"
     for i, (kind, d) in enumerate(zip(kinds, sizes)):
-        hdr = (TEXT_HDR if kind == "T" else FILE_HDR) % (b"p%d" % i)
+        hdr = HDR_OF[kind] % (b"p%d" % i)
         lit = lead + hdr + b"\r\n\r\n"
         markup.append(["headers", (pos + len(lead), pos + len(lead) + len(hdr))])
         pos = pos + len(lit)
@@ -322,10 +324,12 @@ def make_fields(kinds):
         assume(1 <= t <= M)
         segs, markup, hlens = multipart_layout(kinds, sizes)
         src = stubs_c13.SegSource(segs)
-        got, err = [], None
+        got, err, form_values = [], None, []
         try:
             for item in FieldStorage.iter_items(src, markup, t):
                 got.append(item)
+                if not item.filename:          # what BodyMixin.POST puts into request.forms
+                    form_values.append(item.value)
         except Exception as e:
             err = e
         reads = list(src.reads)        # what parsing itself brought into memory
@@ -358,13 +362,23 @@ def make_fields(kinds):
             if kinds[i] == "T":
                 if item.filename is not None or len(item.value) != sizes[i]:
                     return "text field %d: value of %r bytes, sent %r" % (i, len(item.value), sizes[i])
+            elif kinds[i] == "E" and item.file is None:
+                cover("empty-name-part")      # delivered as form text: the text budget applies to it
+                if item.value is None or len(item.value) != sizes[i] or sizes[i] > t:
+                    return "part %d (empty filename, %r bytes) delivered as text %r with max_memfile_size %r" % (
+                        i, sizes[i], item.value if item.value is None else len(item.value), t)
             else:
-                cover("file-part")
+                cover("empty-name-part" if kinds[i] == "E" else "file-part")
                 if item.file is None or len(item.file.read()) != sizes[i]:
                     return "file part %d not delivered as a %r byte file" % (i, sizes[i])
+        for v in form_values:
+            if v is not None and len(v) > t:
+                return "form value of %r characters in memory, max_memfile_size %r" % (len(v), t)
         text_loaded = 0
         for pos, sz in reads:
             kind = part_kind_at(segs, kinds, pos)
+            if kind == "E" and sz > t:
+                return "%r bytes of a part with an empty filename read into memory in one piece, max_memfile_size %r" % (sz, t)
             if kind == "F":
                 return "file part content (%r bytes at %r) read into memory while parsing" % (sz, pos)
             if kind == "T":
@@ -568,6 +582,41 @@ def make_wsgi_multipart(kind, size, tmin, limited):
     return q
 
 
+def make_wsgi_multipart_empty_name(size):
+    """a small text field and a file input sent with filename="" that nevertheless carries `size` bytes: whatever the
+    handler finds in request.forms / request.POST / request.files, no text longer than max_memfile_size is in memory"""
+    value = bytes(97 + i % 26 for i in range(size))
+    body = (b'--B\r\n' + TEXT_HDR % b"a" + b'\r\n\r\nhi\r\n--B\r\n' + b'Content-Disposition: form-data; name="f"; filename=""'
+            + b'\r\n\r\n' + value + b'\r\n--B--\r\n')
+    n = len(body)
+
+    def handler_of(app, seen):
+        def h():
+            rq = app.request
+            for dct in (rq.forms, rq.POST, rq.files):
+                for k in dct.keys():
+                    for v in (dct[k] if isinstance(dct[k], list) else [dct[k]]):
+                        seen.append((k, v if v is None or isinstance(v, str) else type(v).__name__))
+            return "done"
+        return h
+
+    def q(t: int):
+        assume(100 <= t <= n + 1)           # (the two header blocks, 96 bytes with the text value, fit the in-memory budget)
+        s = stubs.SymStream(n, [], data=body)
+        status, out, seen = serve(handler_of, None, t, s, CONTENT_TYPE="multipart/form-data; boundary=B", CONTENT_LENGTH=str(n))
+        if status >= 400:
+            cover("refused")
+            return None if not seen else "refused with %r after the handler saw %r" % (status, seen)
+        for k, v in seen:
+            if isinstance(v, str) and len(v) > t:
+                return "request form holds %r characters of text for field %r, max_memfile_size %r" % (len(v), k, t)
+        if ("a", "hi") not in seen:
+            return "text field lost: %r" % (seen,)
+        cover("over" if size > t else "within")
+        return None
+    return q
+
+
 # ---------------------------------------------------------------- query list
 def queries(tier):
     T = tier == "thorough"
@@ -618,6 +667,17 @@ def queries(tier):
             "fields/int", {"parts": kinds})
 
     # end to end
+    for kinds in (["E", "TE"] if not T else ["E", "TE", "ET", "EE", "TEF"]):
+        add("fields/int/" + kinds, make_fields(kinds),
+            "FieldStorage.iter_items on a multipart body with parts %s (E = part with filename=\"\" and content), values read "
+            "as BodyMixin.POST reads them for request.forms; every data size in [0,2^20] and max_memfile_size in [1,2^20] "
+            "symbolic, opaque data" % kinds, 100 if not T else 400,
+            ["within-budget", "empty-name-part"] + (["text-over-threshold"] if "T" in kinds else []), "fields/int", {"parts": kinds})
+    for size in ([150] if not T else [0, 150, 300]):
+        add("wsgi/multipart/empty-filename/%d" % size, make_wsgi_multipart_empty_name(size),
+            "Ombott.__call__, multipart body with a text field and a part with filename=\"\" carrying %d bytes; handler reads "
+            "every value of request.forms, request.POST and request.files; max_memfile_size 100..body length+1 symbolic" % size,
+            200 if not T else 600, ["over", "within"] if size > 100 else ["within"], "wsgi/multipart", {"size": size})
     for c in ([0, 4, 8] if not T else [0, 1, 2, 4, 7, 8, 9]):
         add("wsgi/raw/cl%d" % c, make_wsgi_raw_cl(c, True),
             "Ombott.__call__, POST handler returning Request.body: Content-Length=%d, 0..8 real bytes available (symbolic), "
